@@ -2,8 +2,8 @@
 
 modes
   replay <vectors.ndjson> <out.ndjson>      every TLC-generated input vector (pattern, target, given instantiation) is replayed:
-                                            binders named "x" (clashing with the free variable x) and binders with distinct
-                                            names; and, when pattern and target are applications of a rigid head to the same
+                                            binders named "x" (clashing with the free variable x), binders with distinct
+                                            names, and (route "s") targets built with maximal sharing of equal sub-term objects; and, when pattern and target are applications of a rigid head to the same
                                             number (>= 2) of arguments, also first_order_match_list on the argument lists
   rand   <out.ndjson> <n> <seed>            seeded random larger inputs: patterns = statements of library theorems (as loaded
                                             from the theory files) and random typed patterns, targets = random instances,
@@ -32,19 +32,28 @@ def enc_inst(inst):
     return d
 
 
-def build(j, names):
-    """Real Term from codec JSON; names() gives the name of the next binder."""
+def build(j, names, memo=None):
+    """Real Term from codec JSON; names() gives the name of the next binder.  With memo (a dict): maximal sharing -- structurally
+    equal sub-terms (including those with loose bound variables, at whatever binder depth) become the SAME Python object."""
+    if memo is not None:
+        key = json.dumps(j)
+        if key in memo:
+            return memo[key]
     k = j[0]
     if k == "comb":
-        return Comb(build(j[1], names), build(j[2], names))
-    if k == "abs":
+        r = Comb(build(j[1], names, memo), build(j[2], names, memo))
+    elif k == "abs":
         nm = names()
-        return Abs(nm, decT(j[1]), build(j[2], names))
-    return dec(j)
+        r = Abs(nm, decT(j[1]), build(j[2], names, memo))
+    else:
+        r = dec(j)
+    if memo is not None:
+        memo[key] = r
+    return r
 
 
 def namer(route):
-    if route == "x":
+    if route in ("x", "s"):
         return lambda: "x"
     cnt = [0]
 
@@ -52,6 +61,25 @@ def namer(route):
         cnt[0] += 1
         return "u%d" % cnt[0]
     return f
+
+
+def can_share(j):
+    """some compound sub-term occurs twice (so that maximal sharing really produces a shared object)"""
+    seen = set()
+
+    def walk(n):
+        if n[0] not in ("comb", "abs"):
+            return False
+        k = json.dumps(n)
+        if k in seen:
+            return True
+        seen.add(k)
+        return walk(n[1]) or walk(n[2]) if n[0] == "comb" else walk(n[2])
+    return walk(j)
+
+
+def has_abs(j):
+    return j[0] == "abs" or (j[0] == "comb" and (has_abs(j[1]) or has_abs(j[2])))
 
 
 def mk_inst(s0, names):
@@ -79,7 +107,8 @@ class Out:
     def event(self, call, route, meta, ps_j, ts_j, s0_j):
         names = namer(route)
         ps = [build(p, names) for p in ps_j]
-        ts = [build(t, names) for t in ts_j]
+        memo = {} if route == "s" else None          # route "s": the targets are built with maximal sharing of equal sub-terms
+        ts = [build(t, names, memo) for t in ts_j]
         inst0 = mk_inst(s0_j, names)
         before = enc_inst(inst0)
         exc = ""
@@ -119,13 +148,19 @@ def replay(vec_path, out_path):
             continue
         v = json.loads(ln)
         meta = {"kind": v.get("kind", "given"), "seed": v.get("seed", "given"), "gi": v.get("gi", {"ty": [], "sv": []})}
-        for route in ("x", "u"):
+        # binder names and sharing of sub-term objects only matter when a binder is entered
+        routes = ["x"]
+        if has_abs(v["p"]) or has_abs(v["t"]):
+            routes.append("u")
+            if can_share(v["t"]):
+                routes.append("s")
+        for route in routes:
             out.event("single", route, meta, [v["p"]], [v["t"]], v["s0"])
         hp, ap = spine(v["p"])
         ht, at = spine(v["t"])
         if len(ap) >= 2 and len(ap) == len(at) and hp[0] in ("var", "const"):
             nlist += 1
-            out.event("list", "x", meta, ap, at, v["s0"])
+            out.event("list", "s" if any(has_abs(a) for a in at) and can_share(v["t"]) else "x", meta, ap, at, v["s0"])
     out.close()
     print("replay events", out.tid, "list calls", nlist)
 
@@ -360,7 +395,7 @@ def rand(out_path, n, seed):
         if gi["ty"]:
             seeds.append(("ty", {"ty": gi["ty"], "sv": []}))
         sd = rnd.choice(seeds)
-        route = rnd.choice(["x", "u"])
+        route = rnd.choice(["x", "u", "s"])
         out.event("single", route, {"kind": "pos", "seed": sd[0], "gi": gi, "src": src}, [pj], [posj], sd[1])
         made += 1
         nj = perturb(posj, rnd)
